@@ -665,7 +665,11 @@ func conclude(prop, tier string, seed int64, t0 time.Time, loadS float64, result
 	}
 	var pend []pending
 	valDir, _ := os.MkdirTemp("", "vcheck-vec-")
-	defer os.RemoveAll(valDir)
+	if os.Getenv("VERIF_KEEPVEC") == "" {
+		defer os.RemoveAll(valDir)
+	} else {
+		fmt.Fprintln(os.Stderr, "validation vectors kept in", valDir)
+	}
 	dirOf := map[string]string{}
 	for _, r := range results {
 		dirOf[r.Name] = r.Dir
